@@ -234,5 +234,19 @@ func Families() map[string]GraphSpec {
 		spec(KMap, 0, 4, -1, 0, 0, 1, 0, 2),
 		spec(KMap, 0, 4, -1, 0, 1, 0, 0, 0, 1),
 	}
+	// smallest graph in which an input can be retargeted inside the ancestor set: d reads b and c, c reads b, b reads a
+	f["retarget4"] = GraphSpec{
+		spec(KMap, 1, 0, -1),
+		spec(KMap, 0, 0, -1, 1),
+		spec(KMap, 0, 0, -1, 0, 1),
+		spec(KMap, 0, 0, -1, 0, 1, 1),
+	}
+	for _, g := range f {
+		for i := range g {
+			for len(g[i].Refs) < i {
+				g[i].Refs = append(g[i].Refs, 0)
+			}
+		}
+	}
 	return f
 }
